@@ -51,6 +51,31 @@ def mutants_of(path):
     return out
 
 
+SUBST_TOKENS = ["int", "void", "0", "x9", "struct", "const", "unsigned long", "T", "virtual", "template", "typename", "-1"]
+IDENT = re.compile(r"[A-Za-z_][A-Za-z_0-9]*|\b\d+\b")
+
+
+def token_mutants(path, step):
+    """Replace every `step`-th identifier / integer literal occurrence by every substitution token (one edit per mutant)."""
+    text = open(path, errors="surrogateescape").read()
+    out = []
+    k = 0
+    for ln, line in enumerate(text.split("\n")):
+        if line.startswith("// bindgen") or line.lstrip().startswith("//"):
+            continue
+        for m in IDENT.finditer(line):
+            k += 1
+            if k % step:
+                continue
+            for ti, tok in enumerate(SUBST_TOKENS):
+                if tok == m.group(0):
+                    continue
+                lines = text.split("\n")
+                lines[ln] = line[:m.start()] + tok + line[m.end():]
+                out.append((f"sub{ln}_{m.start()}_{ti}", lines))
+    return out
+
+
 def new_check(tier):
     return Check("C12", tier, LEVEL,
                  "inputs = every delete/duplicate/swap single-line mutant of repository headers (classified by clang -fsyntax-only), "
@@ -104,7 +129,12 @@ def run(ck, only=None):
     # ---- (i) mutants -----------------------------------------------------------------
     if not only or only.get("kind") == "mutant":
         jobs, info = [], {}
-        for h in sel:
+        # identifier / literal substitution on a 60-header subset; splices between headers of the same language on a 30-header subset
+        allh = list(base)
+        subst_sel = set(allh[::10][:60]) if ck.tier == "thorough" else set(sel[::6])
+        sp = allh[::20][:30] if ck.tier == "thorough" else sel[::8]
+        splice_partner = {h: [o for o in sp if o != h and o.endswith(os.path.splitext(h)[1])] for h in sp}
+        for h in sorted(set(sel) | subst_sel | set(sp), key=allh.index):
             bn = os.path.basename(h)
             if only and only.get("header") != bn:
                 continue
@@ -112,6 +142,12 @@ def run(ck, only=None):
             hi = args.index(h)
             orig_norm = re.sub(r"\s+", " ", open(h, errors="surrogateescape").read())
             cases = [("orig", open(h, errors="surrogateescape").read().split("\n"))] + mutants_of(h)
+            if h in subst_sel:
+                cases += token_mutants(h, 1 if ck.tier == "thorough" else 7)
+            for other in splice_partner.get(h, ()):
+                a = open(h, errors="surrogateescape").read().split("\n")
+                b = [l for l in open(other, errors="surrogateescape").read().split("\n") if not l.startswith("// bindgen")]
+                cases.append((f"splice_{os.path.basename(other)}", a[:len(a) // 2] + b[len(b) // 2:]))
             seen_text = set()
             for mname, lines in cases:
                 if only and only.get("mutant") != mname:
